@@ -128,6 +128,12 @@ def _f_scalar(spec, z, perms):
         val = math.fsum(w[i] * z[i] for i in range(n)) - c
     elif fam == "abssum":
         val = math.fsum(w[i] * abs(z[i] - s[i]) for i in range(n)) - c
+    elif fam == "hinge":
+        # constraint-violation style objective: exactly 0.0 inside a ball around the shift, positive outside - converged
+        # populations hold many agents whose cost is exactly zero
+        val = max(0.0, math.fsum(w[i] * (z[i] - s[i]) ** 2 for i in range(n)) - spec.get("radius2", 0.1))
+        if math.isnan(math.fsum(z)):
+            val = float("nan")
     elif fam == "plateau":
         q = spec.get("q", 1.0)
         t = math.fsum(abs(z[i] - s[i]) for i in range(n)) / q
